@@ -17,7 +17,7 @@ use std::time::Duration;
 pub static INFO: PropInfo = PropInfo {
     id: "C20",
     level: "exploration",
-    rule: "one evaluation = one session of the real NetcodeServerTransport and 1-5 NetcodeClientTransports over 127.0.0.1 UDP sockets, single-threaded with virtual durations, through an in-path relay (one front socket the clients believe is the server, one back socket per client) that applies a seeded schedule to the real datagrams: drop, duplicate, delay / reorder, replay of old datagrams, bit corruption; applications submit messages on all three channel kinds both ways, disconnect from either side / either layer at seeded ticks, and reconnect with the same client id; secure and unsecure authentication; in a third of the secure runs the connect tokens live 2-8 s only, so sessions outlive the token they were established with (a client whose token ran out before it connected is owed nothing). Oracles: right after every NetcodeServerTransport::update the server has no disconnected-but-present connection, the message layer's connected ids equal the ids the transport has an address for, and both counts agree; ServerEvents per id alternate Connected/Disconnected starting with Connected; every application- or peer-initiated disconnect is visible on the other side within timeout + 1 s of virtual time; every obtained message is a byte-identical submission of the same client / channel, in order on ordered channels and at most once on reliable ones; in interference-only runs (every timeout window sees a genuine datagram delivered each way) no session ends unless an application asked for it; every datagram seen by the relay is <= 1400 bytes. Non-trivial = the relay interfered (drop/dup/delay/replay/corrupt) AND at least one client connected AND at least one disconnect was propagated; distinct = fingerprints of the session history (connects, disconnects, message counts). Half of the same-id reconnects of secure runs reach the server from the SAME address as the previous session (the relay keeps its socket: a NAT mapping that is still there), and the relay replays the recorded connection request of the previous token (still valid, sealed for this server) into the new session up to three times: it is not this session's business and ends nothing. Client transports count time from their own origin (sometimes an hour or a day ahead of the server). In a quarter of the runs a STRANGER (no token, no handshake) sends the server's socket one to four datagrams every tick, zero-length ones and a single byte: they belong to nobody and hold nobody up. In a fifth of the hostile runs one client is HASTY: the relay holds its Response datagrams back, its application disconnects as soon as one has left, and the relay releases the responses together with the Disconnect datagram - the server sees the completed handshake and its end within one transport update and must report ClientConnected before ClientDisconnected. In half of the clean-relay runs one client (with an id of its own) is MUTED: the relay drops every server-to-client session datagram for it, so the server holds its session while the client is still answering the challenge; its application then disconnects (client or transport API) and the server side must be gone within 6 ticks. A quarter of the runs end their fault phase with a SERVER SHUTDOWN: 0-2 message-layer kicks (RenetServer::disconnect) are left pending and NetcodeServerTransport::disconnect_all is called in the same frame; the netcode layer must be empty at once, every session gets its ClientDisconnected and every client ends. At the end of every run the last event per id must agree with both layers. A third of the runs also have a HOST PLAYER: a local client of the same RenetServer (new_local_client, pumped with process_local_client every tick after the transport's send_packets) exchanging ordered messages with the server; it has no netcode session (excluded from the lock-step comparison), must never be reported disconnected, and its ordered streams must be complete and in order at the end of the run. One run in 16 is a VANISHED-SERVER run instead: one client (its UDP socket connected to the server's address in 2 of 3 runs) and a server transport, direct; after some traffic the server transport is dropped (socket closed) and the client, still being updated and still sending, must be disconnected within timeout + 1 s of virtual time. During the fault phase the client limit is changed at run time now and then (set_max_clients(1..8), also below the number connected): the lock-step comparison must keep holding, nobody loses a session for it. A quarter of the runs with two or more clients are CROWDED: one slot too few at first, so somebody is denied; the relay holds half of the ConnectionDenied datagrams back, the server application frees a slot at tick 10, and a client that got in afterwards is shown its stale denial, which must not end its session. One run in 20 is a TWO-SERVERS run: a token lists two servers sharing the private key on one host; the first (behind a relay socket) accepts the client and streams, but everything after its challenge is held back; the client fails over to the second server; then the held datagrams of the first are delivered from the first address: the client application must obtain only what the second server submitted.",
+    rule: "one evaluation = one session of the real NetcodeServerTransport and 1-5 NetcodeClientTransports over 127.0.0.1 UDP sockets, single-threaded with virtual durations, through an in-path relay (one front socket the clients believe is the server, one back socket per client) that applies a seeded schedule to the real datagrams: drop, duplicate, delay / reorder, replay of old datagrams, bit corruption; applications submit messages on all three channel kinds both ways, disconnect from either side / either layer at seeded ticks, and reconnect with the same client id; secure and unsecure authentication; in a third of the secure runs the connect tokens live 2-8 s only, so sessions outlive the token they were established with (a client whose token ran out before it connected is owed nothing). Oracles: right after every NetcodeServerTransport::update the server has no disconnected-but-present connection, the message layer's connected ids equal the ids the transport has an address for, and both counts agree; ServerEvents per id alternate Connected/Disconnected starting with Connected; every application- or peer-initiated disconnect is visible on the other side within timeout + 1 s of virtual time; every obtained message is a byte-identical submission of the same client / channel, in order on ordered channels and at most once on reliable ones; in interference-only runs (every timeout window sees a genuine datagram delivered each way) no session ends unless an application asked for it; every datagram seen by the relay is <= 1400 bytes. Non-trivial = the relay interfered (drop/dup/delay/replay/corrupt) AND at least one client connected AND at least one disconnect was propagated; distinct = fingerprints of the session history (connects, disconnects, message counts). Half of the same-id reconnects of secure runs reach the server from the SAME address as the previous session (the relay keeps its socket: a NAT mapping that is still there), and the relay replays the recorded connection request of the previous token (still valid, sealed for this server) into the new session up to three times: it is not this session's business and ends nothing. Client transports count time from their own origin (sometimes an hour or a day ahead of the server). One client in eight runs is MISCONFIGURED: built with one send channel more than the server knows; its first message on that channel makes the server's message layer drop the connection while the transport is reading the socket, and right after that very update both layers must agree. In a quarter of the runs a STRANGER (no token, no handshake) sends the server's socket one to four datagrams every tick, zero-length ones and a single byte: they belong to nobody and hold nobody up. In a fifth of the hostile runs one client is HASTY: the relay holds its Response datagrams back, its application disconnects as soon as one has left, and the relay releases the responses together with the Disconnect datagram - the server sees the completed handshake and its end within one transport update and must report ClientConnected before ClientDisconnected. In half of the clean-relay runs one client (with an id of its own) is MUTED: the relay drops every server-to-client session datagram for it, so the server holds its session while the client is still answering the challenge; its application then disconnects (client or transport API) and the server side must be gone within 6 ticks. A quarter of the runs end their fault phase with a SERVER SHUTDOWN: 0-2 message-layer kicks (RenetServer::disconnect) are left pending and NetcodeServerTransport::disconnect_all is called in the same frame; the netcode layer must be empty at once, every session gets its ClientDisconnected and every client ends. At the end of every run the last event per id must agree with both layers. A third of the runs also have a HOST PLAYER: a local client of the same RenetServer (new_local_client, pumped with process_local_client every tick after the transport's send_packets) exchanging ordered messages with the server; it has no netcode session (excluded from the lock-step comparison), must never be reported disconnected, and its ordered streams must be complete and in order at the end of the run. One run in 16 is a VANISHED-SERVER run instead: one client (its UDP socket connected to the server's address in 2 of 3 runs) and a server transport, direct; after some traffic the server transport is dropped (socket closed) and the client, still being updated and still sending, must be disconnected within timeout + 1 s of virtual time. During the fault phase the client limit is changed at run time now and then (set_max_clients(1..8), also below the number connected): the lock-step comparison must keep holding, nobody loses a session for it. A quarter of the runs with two or more clients are CROWDED: one slot too few at first, so somebody is denied; the relay holds half of the ConnectionDenied datagrams back, the server application frees a slot at tick 10, and a client that got in afterwards is shown its stale denial, which must not end its session. One run in 20 is a TWO-SERVERS run: a token lists two servers sharing the private key on one host; the first (behind a relay socket) accepts the client and streams, but everything after its challenge is held back; the client fails over to the second server; then the held datagrams of the first are delivered from the first address: the client application must obtain only what the second server submitted.",
     assumptions: &[
         "single-threaded endpoints, loopback delivery is effectively synchronous; a datagram the relay misses arrives one tick later (a legal delay)",
         "bounds are on virtual time (durations passed to update), never wall-clock",
@@ -96,6 +96,9 @@ struct Peer {
     /// peer address: a reconnect through the same NAT mapping) with another, still valid token
     prev_request: Option<Vec<u8>>,
     prev_request_replays: u32,
+    /// this client was built with one send channel more than the server knows (a version mismatch): the first message on
+    /// it makes the server's message layer drop the connection while the transport is reading the socket
+    misconfigured: bool,
     /// application-level state
     app_closed: bool,
     closed_at_ms: Option<u64>,
@@ -170,6 +173,7 @@ struct World {
     hasty_held: Vec<Vec<u8>>,
     /// a host that holds no token: it sends the server's socket empty (zero-length) and one-byte datagrams every tick
     stranger: Option<(UdpSocket, u64)>,
+    misconfigured_id: Option<u64>,
     /// a host player: a LOCAL client of the same RenetServer (listen-server setup); it has no netcode session
     host: Option<Host>,
     /// ConnectionDenied datagrams the relay held back (peer, generation, bytes): the client keeps asking, gets in
@@ -215,7 +219,15 @@ impl World {
         // a client transport counts time from wherever its application likes (here: sometimes an hour or a day ahead)
         let now = now + Duration::from_secs(*r.pick(&[0u64, 0, 3600, 86_400]));
         let transport = NetcodeClientTransport::new(now, auth, sock).map_err(|e| format!("{:?}", e))?;
-        let client = RenetClient::new(conn_cfg(self.resend_ms));
+        // one client in eight of generation 0 is misconfigured (never the muted / hasty one, never a twin)
+        let misconfigured = generation == 0 && self.misconfigured_id == Some(id);
+        let client = if misconfigured {
+            let mut cfg = conn_cfg(self.resend_ms);
+            cfg.client_channels_config.push(ChannelConfig { channel_id: 9, max_memory_usage_bytes: 1 << 16, send_type: SendType::ReliableOrdered { resend_time: Duration::from_millis(100) } });
+            RenetClient::new(cfg)
+        } else {
+            RenetClient::new(conn_cfg(self.resend_ms))
+        };
         Ok(Peer {
             transport,
             client,
@@ -226,6 +238,7 @@ impl World {
             first_request: None,
             prev_request: None,
             prev_request_replays: 0,
+            misconfigured,
             app_closed: false,
             closed_at_ms: None,
             closed_by: "",
@@ -612,6 +625,7 @@ fn one_run_inner(ctx: &Ctx, out: &mut Outcome, run_seed: u64) {
         hasty: None,
         hasty_held: Vec::new(),
         stranger: None,
+        misconfigured_id: None,
         host: None,
         withheld_denied: Vec::new(),
         stale_denied_shown: HashMap::new(),
@@ -623,6 +637,10 @@ fn one_run_inner(ctx: &Ctx, out: &mut Outcome, run_seed: u64) {
         out.count("runs_with_host_player");
     }
     let n_clients = r.urange(1, max_clients.min(5));
+    if n_clients >= 2 && (run_seed >> 21) % 8 == 0 {
+        w.misconfigured_id = Some(100 + (n_clients - 1) as u64);
+        out.count("runs_with_a_misconfigured_client");
+    }
     for k in 0..n_clients {
         match w.new_peer(&mut r, 100 + k as u64, 0) {
             Ok(p) => w.peers.push(p),
@@ -766,6 +784,18 @@ fn one_run_inner(ctx: &Ctx, out: &mut Outcome, run_seed: u64) {
                         pending_closed_checks.push((k, p.generation, w.now_ms + 6 * dt, who));
                         fp.u64(0xD15D ^ id);
                     }
+                    continue;
+                }
+                if w.peers[k].misconfigured && w.peers[k].generation == 0 && !w.peers[k].app_closed && w.peers[k].client.is_connected() && w.server.is_connected(id) && r.chance(1, 6) {
+                    w.peers[k].client.send_message(9, Bytes::from(vec![9u8; 20]));
+                    out.count("message_on_a_channel_the_server_does_not_have");
+                    w.log(format!("id {} sends on channel 9, which the server does not have: the server's message layer will drop it", id));
+                    let p = &mut w.peers[k];
+                    p.app_closed = true;
+                    p.closed_at_ms = Some(w.now_ms);
+                    p.closed_by = "server_message_layer";
+                    pending_closed_checks.push((k, p.generation, u64::MAX, "server_message_layer"));
+                    fp.u64(0xD15F ^ id);
                     continue;
                 }
                 let connected_both = w.peers[k].client.is_connected() && w.server.is_connected(id);
